@@ -356,3 +356,10 @@ Theorem C15_go_string_encoder_total : forall esc s out0,
   QuoteGen.quote_run esc s out0 <> QuoteGen.QFuel /\ QuoteGen.quote_run esc s out0 <> QuoteGen.QPanic.
 Proof. exact QuoteTie.quote_run_total. Qed.
 Print Assumptions C15_go_string_encoder_total.
+
+(* ---- ApplyIndent's re-indentation: Indent of indent.go as re-translated on every run is the model's indent_go ---- *)
+From JP Require IndentTie.
+From JP.gen Require IndentGen.
+Theorem C15_go_indent_is_model : forall indent bs, IndentGen.indent_gen [] indent bs = Scan.indent_go indent bs.
+Proof. exact IndentTie.indent_gen_is_model. Qed.
+Print Assumptions C15_go_indent_is_model.
